@@ -38,3 +38,13 @@ def run(chk):
   for u in universes:
     per[u] = valuespec.run_universe(chk, u)
   chk.notes['universes'] = per
+
+
+def replay(chk, path):
+  """Re-evaluates the universe of a recorded violation and reports only the instances with its signature."""
+  import json  # pylint: disable=import-outside-toplevel
+  rec = json.load(open(path))
+  u = rec['detail']['universe']
+  chk.rule = f'replay of {path}: universe {u}, signature {rec["signature"]}'
+  chk.exhaustive = True
+  chk.notes['universes'] = {u: valuespec.run_universe(chk, u, only_sig=rec['signature'])}
